@@ -43,16 +43,19 @@ func c01Judge(k c01Case) *vlib.Failure {
 		if got != want {
 			return vlib.Failf("after inserting %q in this order, Contains(%q)=%t (origin parsed=%t) but the patterns denote it: %t", k.Patterns, k.Origin, got, ok, want)
 		}
-	case "api":
+	case "api", "api-no-psl-switch":
 		all := false
 		for _, p := range k.Patterns {
 			if p == "*" {
 				all = true
 			}
 		}
-		cfg := cors.Config{Origins: k.Patterns, ExtraConfig: cors.ExtraConfig{DangerouslyTolerateSubdomainsOfPublicSuffixes: true}}
+		cfg := cors.Config{Origins: k.Patterns, ExtraConfig: cors.ExtraConfig{DangerouslyTolerateSubdomainsOfPublicSuffixes: k.Via == "api"}}
 		m, err := cors.NewMiddleware(cfg)
 		if err != nil {
+			if k.Via != "api" {
+				return nil // the list needs the switch
+			}
 			return vlib.Failf("list of valid patterns %q rejected: %v", k.Patterns, err)
 		}
 		inner := &vlib.Noop{}
@@ -628,6 +631,24 @@ func checkC01(c *vlib.Ctx) (string, string) {
 				return
 			}
 			h := m.Wrap(http.HandlerFunc(func(http.ResponseWriter, *http.Request) {}))
+			// the same list without the public-suffix switch, when it does not need it (the usual case in practice)
+			if m0, err0 := cors.NewMiddleware(cors.Config{Origins: list}); err0 == nil {
+				h0 := m0.Wrap(http.HandlerFunc(func(http.ResponseWriter, *http.Request) {}))
+				for o := range pset {
+					want := all || ref.DenotedByAny(list, o)
+					rec := vlib.NewRec()
+					h0.ServeHTTP(rec, vlib.Req{Method: "GET", Hdr: map[string][]string{"Origin": {o}}}.HTTP())
+					acao := rec.H["Access-Control-Allow-Origin"]
+					if got := len(acao) == 1 && (acao[0] == o || all && acao[0] == "*"); got != want {
+						k := c01Case{list, o, "api-no-psl-switch"}
+						if jf := vlib.Guard(func() *vlib.Failure { return c01Judge(k) }); jf != nil {
+							ck.Report(k, jf)
+						} else {
+							vlib.HarnessError("API pass and judge disagree on %+v", k)
+						}
+					}
+				}
+			}
 			for o := range pset {
 				want := all || ref.DenotedByAny(list, o)
 				rec := vlib.NewRec()
